@@ -80,7 +80,7 @@ def sprinkle(cases, seed, p_bw=0.12, p_log=0.08, p_prior=0.08, p_version=0.12):
         for t in c['transfers']:
             # subscriber classes whose callbacks are inherited / come from a mixin
             if isinstance(t, dict) and 'subs' not in t and r.random() < 0.06:
-                t['subs'] = [{'flavor': r.choice(['inherited', 'mixin'])}]
+                t['subs'] = [{'flavor': r.choice(['inherited', 'mixin', 'falsy'])}]
             # a destination stream whose write() takes all the data but returns something other than its length
             if isinstance(t, dict) and t.get('kind') == 'download' and t.get('dst') in ('seekable', 'nonseekable') and 'write_ret' not in t \
                     and r.random() < 0.2:
